@@ -757,3 +757,92 @@ def deep_call_names(body, op, depth=3):
                     for arg in c.get('args', []):
                         todo.append((arg, d + 1))
     return seen
+
+
+# ---------------------------------------------------------------------------
+# more shared helpers
+
+def return_origin(body):
+    """union of the origins of everything assigned to the return place (Ok/Err payloads, forwarded results)"""
+    res = Origin()
+    for d in body.defs().get(0, []):
+        bb, idx, kind, payload, lhs = d
+        if bb not in body.live_blocks() or body.is_cleanup(bb):
+            continue
+        ops = []
+        if kind == 'assign':
+            rv = payload
+            if rv['k'] == 'agg':
+                ops = list(rv['ops'])
+                if rv.get('agg') == 'adt':
+                    res.atoms.add(('ret', rv.get('adt'), rv.get('variant')))
+            elif rv['k'] == 'use':
+                ops = [rv['op']]
+        elif kind == 'call':
+            t = payload
+            res.calls.append(t)
+            tr = transparent(t)
+            if tr is not None and tr[0] < len(t['args']):
+                res.flags.add(tr[1])
+                ops = [t['args'][tr[0]]]
+            else:
+                res.atoms.add(('call', cname(t), body.id, bb))
+        for op in ops:
+            o = origin(body, op)
+            res.atoms |= o.atoms
+            res.flags |= o.flags
+            res.fields |= o.fields
+            res.calls += o.calls
+    return res
+
+
+def same_value(o1, o2):
+    """two origins denote the same runtime value (same non-empty atom set, no arithmetic on either side)"""
+    return bool(o1.atoms) and o1.atoms == o2.atoms and o1.fields == o2.fields and not o1.has_arith() and not o2.has_arith()
+
+
+def sub_is_guarded(body, bb, lop, rop):
+    """`l - r` evaluated in block bb cannot underflow: a dominating comparison establishes l >= r (or l != 0 / l > 0
+    when r is the constant 1 ...)"""
+    lo, ro = origin(body, lop), origin(body, rop)
+    rc = ro.consts() if not [a for a in ro.atoms if a[0] != 'const'] else None
+    for g in cmp_guards(body, bb):
+        gl, gr, op = g['l'], g['r'], g['op']
+        # l >= r / r <= l
+        if op in ('Ge', 'Gt') and same_value(gl, lo) and (same_value(gr, ro) or (rc and gr.consts() == rc and not gr.params())):
+            return True
+        if op in ('Le', 'Lt') and same_value(gr, lo) and (same_value(gl, ro) or (rc and gl.consts() == rc and not gl.params())):
+            return True
+        # l - 1 under l != 0 or l > 0
+        if rc == {1}:
+            if op == 'Ne' and ((same_value(gl, lo) and gr.consts() == {0}) or (same_value(gr, lo) and gl.consts() == {0})):
+                return True
+            if op == 'Gt' and same_value(gl, lo) and gr.consts() == {0}:
+                return True
+            if op == 'Lt' and same_value(gr, lo) and gl.consts() == {0}:
+                return True
+    return False
+
+
+def short_fn(label):
+    """module-independent function key: `Type::method`, `<Type as Trait>::method` (last segments), `function`,
+    with closure suffixes kept - so that moving a function to a sibling module does not change inventory keys"""
+    s = label
+    suffix = ''
+    while True:
+        i = s.rfind('::{closure#')
+        if i >= 0 and s.endswith('}'):
+            suffix = s[i:] + suffix
+            s = s[:i]
+        else:
+            break
+    def last(seg):
+        return seg.rsplit('::', 1)[-1]
+    if s.startswith('<') and ' as ' in s:
+        inner, _, meth = s[1:].rpartition('>::')
+        ty, _, tr = inner.partition(' as ')
+        return '<%s as %s>::%s%s' % (last(ty), last(tr), meth, suffix)
+    parts = s.split('::')
+    if len(parts) >= 2 and parts[-2][:1].isupper():
+        return '%s::%s%s' % (parts[-2], parts[-1], suffix)
+    return parts[-1] + suffix
